@@ -124,6 +124,30 @@ def fill (w : Writer) : List Char → Res CErr Writer
     if isSep c then fill w rest
     else (w.write (String.utf8EncodeChar c.toLower)).bind fun w' => fill w' rest
 
+/-- `NormalizedIter::next` as written: `while let Some(c) = chars.next() { if c != '-' && c != '_' && c != ' ' { return Some(lower(c)) } } None`;
+    the second component is the iterator state after the call -/
+def NormalizedIter.next : List Char → Option (Char × List Char)
+  | [] => none
+  | c :: rest => if c ≠ '-' ∧ c ≠ '_' ∧ c ≠ ' ' then some (c.toLower, rest) else NormalizedIter.next rest
+
+theorem NormalizedIter.next_shorter : ∀ {cs : List Char} {c : Char} {rest : List Char},
+    NormalizedIter.next cs = some (c, rest) → rest.length < cs.length
+  | [], _, _, h => by cases h
+  | x :: xs, c, rest, h => by
+    unfold NormalizedIter.next at h
+    split at h
+    · cases h; simp
+    · have := NormalizedIter.next_shorter h
+      simp; omega
+
+/-- the `for c in NormalizedIter::new(val)` loop of `NormalizedAlg::new` as written -/
+def fillIter (w : Writer) (cs : List Char) : Res CErr Writer :=
+  match _h : NormalizedIter.next cs with
+  | none => .ok w
+  | some (c, rest) => (w.write (String.utf8EncodeChar c)).bind fun w' => fillIter w' rest
+termination_by cs.length
+decreasing_by exact NormalizedIter.next_shorter _h
+
 /-- `NormalizedAlg { len, buf }`, `buf : [u8; 64]` zero-initialised -/
 structure NormalizedAlg where
   len : Nat
@@ -133,6 +157,11 @@ structure NormalizedAlg where
 /-- `NormalizedAlg::new` -/
 def normalizeAlg (s : List Char) : Res CErr NormalizedAlg :=
   (fill { total := normCap, written := [] } s).bind fun w =>
+    .ok { len := w.pos, buf := w.written ++ List.replicate (normCap - w.pos) 0 }
+
+/-- `NormalizedAlg::new` with the iterator-driven loop (`Lemmas/Sign.lean`: equal to `normalizeAlg`) -/
+def normalizeAlgIter (s : List Char) : Res CErr NormalizedAlg :=
+  (fillIter { total := normCap, written := [] } s).bind fun w =>
     .ok { len := w.pos, buf := w.written ++ List.replicate (normCap - w.pos) 0 }
 
 /-- `as_ref`: `&self.buf[..self.len]` -/
